@@ -7,8 +7,9 @@ import Nq.Token822
 import Nq.SmtpAddr
 import Nq.Inject
 import Nq.Spec.Addr
+import Nq.Spec.Lex822
 
-open Nq Nq.Quote Nq.Token822 Nq.SmtpAddr Nq.Inject Nq.Spec.Addr Drv
+open Nq Nq.Quote Nq.Token822 Nq.SmtpAddr Nq.Inject Nq.Spec.Addr Nq.Spec.Lex822 Drv
 
 /-- qmail-smtpd configuration used by harness/c17_quote.c -/
 def smtpdCfg : SmtpAddr.Cfg := { liphost := some (str "lip.example"), ipme := [[127, 0, 0, 1], [0, 0, 0, 0]] }
@@ -149,28 +150,87 @@ def handleQ (st : Stats) (f : List String) : IO Stats := do
     | _, _, _, _ => disagree st s!"unparsable Q line"
   | _ => disagree st s!"unparsable Q line"
 
-/-- an atom that survives unparse → parse: non-empty, only atom bytes, nothing that needs a backslash -/
-def cleanTok : Tok → Bool
-  | .atom s => !s.isEmpty && s.all (fun c => atomok c && !atomBad c)
+/-- comment tokens removed (the predicate of `C17_comments_ignored`; local copy, the lemma file's is not linked) -/
+def noComment : Tok → Bool
+  | .comment _ => false
   | _ => true
+
+/-! ### R lines: a rendering described piece by piece -/
+
+def hexByte (s : String) : Option Byte :=
+  match unhex s with
+  | some [b] => some b
+  | _ => none
+
+/-- `p<hh>` / `e<hh>` groups -/
+def qpOfChars : List Char → Option (List (Byte × Bool))
+  | [] => some []
+  | k :: a :: b :: r =>
+    if k == 'p' || k == 'e' then
+      match hexByte (String.ofList [a, b]), qpOfChars r with
+      | some c, some ps => some ((c, k == 'e') :: ps)
+      | _, _ => none
+    else none
+  | _ => none
+
+def celOfChars : List Char → Option (List CEl)
+  | [] => some []
+  | 'o' :: r => (celOfChars r).map (CEl.op :: ·)
+  | 'x' :: r => (celOfChars r).map (CEl.cl :: ·)
+  | k :: a :: b :: r =>
+    if k == 'p' || k == 'e' then
+      match hexByte (String.ofList [a, b]), celOfChars r with
+      | some c, some els => some (CEl.ch c (k == 'e') :: els)
+      | _, _ => none
+    else none
+  | _ => none
+
+def ctokOfStr (s : String) : Option CTok :=
+  match s.toList with
+  | 's' :: r => (hexByte (String.ofList r)).map CTok.special
+  | 'a' :: r => (if r.isEmpty then some [] else unhex (String.ofList r)).map CTok.atom
+  | 'q' :: r => (qpOfChars r).map CTok.quote
+  | 'l' :: r => (qpOfChars r).map CTok.literal
+  | 'c' :: r => (celOfChars r).map CTok.comment
+  | _ => none
+
+def wsOfStr (s : String) : Option Bytes := if s == "-" then some [] else unhex s
+
+/-- items and trailing white space -/
+def descOfStr (s : String) : Option (List (Bytes × CTok) × Bytes) :=
+  let parts := s.splitOn "/"
+  match parts.getLast? with
+  | none => none
+  | some last =>
+    match last.splitOn "~" with
+    | [w, "$"] =>
+      match wsOfStr w, parts.dropLast.mapM (fun it => match it.splitOn "~" with
+          | [w, e] => match wsOfStr w, ctokOfStr e with
+            | some w, some k => some (w, k)
+            | _, _ => none
+          | _ => none) with
+      | some tr, some items => some (items, tr)
+      | _, _ => none
+    | _ => none
 
 def handleP (st : Stats) (f : List String) : IO Stats := do
   match f with
-  | [nS, sh, eS, prcS, toksS, uqh, uph, rc2S, toks2S, arcS, outS, gotS] =>
+  | [nS, sh, eS, prcS, toksS, uqh, uph, rc2S, toks2S, arcS, outS, gotS, arc2S, got2S] =>
     match unhex sh, nS.toNat? with
     | some s, some n =>
       let mut st := note st (80 :: n.toUInt8 :: s) (s.length > 3)
       let mtoks := parse s
       st := st.bump (if mtoks.isSome then "P_parsed" else "P_refused")
       let mline := match mtoks with
-        | none => "0 - - - 0 - 0 - -"
+        | none => "0 - - - 0 - 0 - - 0 -"
         | some ts =>
           let up := unparse n ts
           let r := addrlist id ts
+          let rn := addrlist id (ts.take 2 ++ (ts.drop 2).filter noComment)
           let t2 := parse up
           s!"1 {toksStr ts} {hex (unquote ts)} {hex up} {if t2.isSome then 1 else 0} {optToksStr t2} " ++
-          s!"{if r.ok then 1 else 0} {if r.ok then toksStr r.out else "-"} {gotStr r.got}"
-      let iline := s!"{prcS} {toksS} {uqh} {uph} {rc2S} {toks2S} {arcS} {outS} {gotS}"
+          s!"{if r.ok then 1 else 0} {if r.ok then toksStr r.out else "-"} {gotStr r.got} {if rn.ok then 1 else 0} {gotStr rn.got}"
+      let iline := s!"{prcS} {toksS} {uqh} {uph} {rc2S} {toks2S} {arcS} {outS} {gotS} {arc2S} {got2S}"
       if mline != iline then
         st ← disagree st s!"kind=P in={sh} n={nS} impl={iline} model={mline}"
       -- oracle (3): what unparse writes parses back to the same tokens (valid atoms only)
@@ -182,6 +242,11 @@ def handleP (st : Stats) (f : List String) : IO Stats := do
             if !(rc2S == "1" && toks2S == toksS) then
               st ← oracleFail st s!"kind=Preparse in={sh} n={nS} tokens={toksS} unparse={uph} reparse_rc={rc2S} reparse={toks2S}"
         | none => st ← disagree st s!"kind=P unparsable tokens {toksS}"
+      -- oracle (4): comment tokens are white space for addrlist (C17_comments_ignored), on the implementation's two runs
+      if prcS == "1" then
+        st := st.bump "P_nocomment_checked"
+        if !(arc2S == arcS && got2S == gotS) then
+          st ← oracleFail st s!"kind=Pcomments in={sh} n={nS} tokens={toksS} addrlist_rc={arcS} got={gotS} without_comments_rc={arc2S} got={got2S}"
       -- oracle (5): on a generated RFC 822 list the callback sees exactly the listed mailboxes (right to left)
       if eS != "X" then
         match mboxesOfStr (if eS == "-" then "" else eS), gotOfStr gotS with
@@ -198,6 +263,33 @@ def handleP (st : Stats) (f : List String) : IO Stats := do
       return st
     | _, _ => disagree st "unparsable P line"
   | _ => disagree st "unparsable P line"
+
+/-- R line: the harness describes a rendering (`desc`), gives the text it parsed and what the real
+`token822_parse` returned.  DISAGREE: the text is not `render desc`, or the model tokenizes it differently.
+ORACLE (`C17_parse_render` on the implementation): if the description is legal (`CTok.ok`, `sepsOk`, white
+space), the real parser must have accepted and returned exactly `desc`'s tokens. -/
+def handleR (st : Stats) (f : List String) : IO Stats := do
+  match f with
+  | [descS, texth, rcS, toksS] =>
+    match descOfStr descS, unhex texth with
+    | some (items, tr), some text =>
+      let mut st := note st (82 :: text) (items.length > 3)
+      if render items tr != text then
+        st ← disagree st s!"kind=Rtext desc={descS} text={texth} render={hex (render items tr)}"
+      let mt := parse text
+      let mline := s!"{if mt.isSome then 1 else 0} {optToksStr mt}"
+      if mline != s!"{rcS} {toksS}" then
+        st ← disagree st s!"kind=R desc={descS} text={texth} impl={rcS} {toksS} model={mline}"
+      if items.all (fun p => p.2.ok) && sepsOk false items && tr.all isWs then
+        st := st.bump "R_legal_checked"
+        let want := toksStr (items.map (fun p => p.2.tok))
+        if !(rcS == "1" && toksS == want) then
+          st ← oracleFail st s!"kind=Rrender desc={descS} text={texth} parse_rc={rcS} tokens={toksS} expected={want}"
+      else
+        st := st.bump "R_not_legal_skipped"
+      return st
+    | _, _ => disagree st s!"unparsable R line {descS.take 200}"
+  | _ => disagree st "unparsable R line"
 
 structure Clock where
   starttime : Nat := 0
@@ -285,6 +377,7 @@ def handle (clk : IO.Ref Clock) (st : Stats) (line : String) : IO Stats := do
   match fields line with
   | "Q" :: f => handleQ st f
   | "P" :: f => handleP st f
+  | "R" :: f => handleR st f
   | "I" :: f => handleI (← clk.get) st f
   | ["C", t, p, d, s] =>
     clk.set { starttime := t.toNat?.getD 0, pid := p.toNat?.getD 0, date := (unhex d).getD [], stamp := (unhex s).getD [] }
